@@ -120,6 +120,18 @@ def monitor(ctx, extended=False):
     try:
         for i in range(n // 2):
             a = E.point(ctx.rng)
+            prior = None
+            if ctx.rng.random() < 0.25:
+                # history: the delivered-concentration model of the same slurry is evaluated first, then the spatial-concentration result is
+                # asked at exactly the concentration it derived (a caller comparing the two models does this)
+                try:
+                    F.Cvt_Erhg(*a, get_dict=True)
+                    cvs = F.Cvs_from_Cvt(*a)
+                    if isinstance(cvs, float) and 0.02 <= cvs <= 0.45:
+                        prior = list(a)
+                        a = tuple(a[:7]) + (cvs,)
+                except Exception:   # noqa
+                    pass
             # the same slurry under a sequence of switch settings ("under the current setting of the switches")
             settings = [(True, True), (True, False), (False, True), (False, False)]
             ctx.rng.shuffle(settings)
@@ -134,7 +146,7 @@ def monitor(ctx, extended=False):
                 if r in NAMES:
                     classes.add((r, sf, sq))
                 else:
-                    ctx.violation(r, {'args': list(a), 'use_sf': sf, 'use_sqrtcx': sq, 'switch_history': list(hist)},
+                    ctx.violation(r, {'args': list(a), 'use_sf': sf, 'use_sqrtcx': sq, 'switch_history': list(hist), 'prior_Cvt_Erhg_call': prior},
                                   key='selection-law')
     finally:
         F.use_sf, F.use_sqrtcx = True, True
@@ -147,6 +159,8 @@ def replay(v):
     i = v['input']
     try:
         r = None
+        if i.get('prior_Cvt_Erhg_call'):
+            F.Cvt_Erhg(*i['prior_Cvt_Erhg_call'], get_dict=True)
         for sf, sq in i.get('switch_history') or [(i['use_sf'], i['use_sqrtcx'])]:
             r = oracle(F, tuple(i['args']), sf, sq)
     finally:
